@@ -41,6 +41,7 @@ def traces(exe, tag):
 
 
 import vlib
+KNOWN = vlib.load_known()
 base_exe = build('/repo')
 stamp = os.path.join(work, 'base.stamp')
 if os.path.exists(stamp) and open(stamp).read() == base_exe and all(os.path.exists(os.path.join(work, 'trace-%s-base.nd' % k)) for k, n in LAWS[prop]):
@@ -79,7 +80,13 @@ for patch in sys.argv[2:]:
             res = vlib.tlc('Trace_Geod', cfg, workers=1, env={'TRACE': cf_}, timeout=3000)
             if not re.search(r'"SUMMARY"', res.out):
                 print('%s: TLC failed\n%s' % (name, res.out[-1500:])); break
-            rej += vlib.parse_rejects(res.out, k)
+            for rj in vlib.parse_rejects(res.out, k):
+                try:
+                    rec = json.loads(changed[rj['line'] - 1])
+                except Exception:
+                    rec = {}
+                if not vlib.match_known(KNOWN, prop, rj, rec):       # rejects of a registered known finding do not count
+                    rej.append(rj)
             if len(rej) > 0 and k + 4000 < len(changed):
                 break            # enough
         if rej:
